@@ -187,6 +187,24 @@ def run(chk, only=None):
         elif not chk.violations:
             c = [c for c in cases if pred in (c.get("known") or [])][0]
             chk.violation("operations fail inside the predicate %s, which is not a listed finding" % pred, slim(c), True)
+    # ---- fakedb <-> Coq statement semantics (coq/At/Stmt.v): the stand-in database all AT checks run on is
+    # cross-checked against an independent Gallina semantics of the same SQL subset on every run (docs/STMT.md)
+    xc = None
+    if only is None:
+        import fakedb_xcheck
+        xp = fakedb_xcheck.proof_stage(chk)
+        xc = fakedb_xcheck.run_stage(chk, 300 if chk.tier == "quick" else 6000)
+        if not xp.get("ok") and not chk.violations:
+            chk.violation("the theorems of the Coq statement semantics (coq/At/StmtProofs.v) no longer check",
+                          {"theorem": "coq/At/StmtProofs.v", "coq_output": str(xp.get("out"))[-1500:]}, False)
+        if xc["mismatches"] and not chk.violations:
+            m = xc["mismatches"][0]
+            chk.violation("fakedb and the Coq statement semantics disagree (%s): the database stand-in behind the AT checks is not validated on this run"
+                          % ", ".join(map(str, m.get("kinds", []))),
+                          {"correspondence": "coq/At/StmtCases.v", "disagreement": {k: m.get(k) for k in ("seed", "case", "step", "kinds", "ddl", "sql", "args", "fakedb_answer")}}, False)
+        chk.coverage["fakedb_vs_coq_semantics"] = {k: xc.get(k) for k in ("cases", "statements", "programs", "skipped", "skipped_model")}
+        chk.coverage["fakedb_vs_coq_semantics"]["mismatches"] = len(xc["mismatches"])
+        chk.coverage["fakedb_vs_coq_semantics"]["theorems"] = len(xp.get("thms") or [])
     nontriv = [c for c in clean if any(o["gtx"] for o in c["ops"]) or len(c["ops"]) >= 3]
     dist = {}
     for c in cases:
@@ -218,7 +236,9 @@ def run(chk, only=None):
         "samples": [slim(c) for c in nontriv[7:9]],
     })
     chk.assumptions += [
-        "fakedb stands in for MySQL (contract in docs/ATRUN.md); its clock is read once more per undo-log insert, so programs with a "
+        "fakedb stands in for MySQL (contract in docs/ATRUN.md); its single-table DML/SELECT semantics is cross-checked on every run "
+        "against the Gallina semantics coq/At/Stmt.v (docs/STMT.md lists what stays trusted: secondary unique indexes, float/decimal/"
+        "temporal/binary columns, functions, transactions/locks/XA); its clock is read once more per undo-log insert, so programs with a "
         "global transaction do not use now()",
         "inside a global transaction the coordinator grants every request and no database fault is injected (refusals and faults are C02/C03)",
         "the backend hypotheses of C16_inside (an image SELECT / savepoint / undo-log insert / local bracket leaves the business data "
